@@ -134,7 +134,7 @@ class C10Engine(Engine):
                 by_event.setdefault(rec["event"], []).append(rec)
             for evi, recs in by_event.items():
                 for rec in recs[:-1]:
-                    if rec["label"].startswith("post-commit"):
+                    if rec["label"].startswith(("post-commit", "post-execute")):
                         rec["between"] = True
             facts["events"] += len(w.history)
             facts["sim"] += w.counters.get("sim_seconds", 0.0)
